@@ -87,53 +87,55 @@ def run(ctx):
         cfg5 = cfg.replace("MaxLen = %d" % L, "MaxLen = 7")
         r2 = tlc(ctx, "RegistryGen", cfg5, mc_text=mc, mc_name="MCRegistryGen", workers=4, label="sim", simulate="num=40000", extra=["-depth", "8", "-seed", str(ctx.seed)], timeout=3000, coverage=False)
         behaviours += printed_values(r2["output"], "REPLAY")
-    # ---- 2. replay every behaviour on a fresh real Registry
-    jobs = []
-    for i, b in enumerate(behaviours):
-        used = []
-        for e in b:
-            if e["c"] not in used:
-                used.append(e["c"])
-        calls = [{"op": "registry", "as": "r"}]
-        for c in used:
-            calls += ctor_calls(c, univ[c])
-        pre = len(calls)
-        for e in b:
-            calls.append({"op": "register" if e["op"] == "reg" else "unregister", "reg": "r", "obj": e["c"]})
-            calls.append({"op": "gather", "reg": "r"})
-        jobs.append({"id": i, "calls": calls, "pre": pre})
-    res = run_api(ctx, exe, [{"id": j["id"], "calls": j["calls"]} for j in jobs], "replay")
+    # ---- 2. replay every behaviour on a fresh real Registry (in chunks: the results are large)
     nconf = 0
-    selfloop_then = 0
-    for j, b in zip(jobs, behaviours):
-        rs = res[j["id"]]
-        ok = True
-        for x in rs[:j["pre"]]:
-            if "ok" not in x:
-                raise ToolError("constructor failed in replay: %s" % x)
-        for n, e in enumerate(b):
-            rr, gg = rs[j["pre"] + 2 * n], rs[j["pre"] + 2 * n + 1]
-            got = res_class(rr)
-            want = e["res"]
-            good = (got == want) or (want == "Err" and got in ("Err", "AlreadyReg"))
-            if "ok" not in gg:
-                good = False
-                gids = None
-            else:
-                gids = shown_ids(gg)
-                if gids != expected_ids(univ, e["reg"]):
+    CH = 20000
+    for off in range(0, len(behaviours), CH):
+        chunk = behaviours[off:off + CH]
+        jobs = []
+        for i, b in enumerate(chunk):
+            used = []
+            for e in b:
+                if e["c"] not in used:
+                    used.append(e["c"])
+            calls = [{"op": "registry", "as": "r"}]
+            for c in used:
+                calls += ctor_calls(c, univ[c])
+            pre = len(calls)
+            for e in b:
+                calls.append({"op": "register" if e["op"] == "reg" else "unregister", "reg": "r", "obj": e["c"]})
+                calls.append({"op": "gather", "reg": "r"})
+            jobs.append({"id": i, "calls": calls, "pre": pre})
+        res = run_api(ctx, exe, [{"id": j["id"], "calls": j["calls"]} for j in jobs], "replay%d" % off)
+        for j, b in zip(jobs, chunk):
+            rs = res[j["id"]]
+            ok = True
+            for x in rs[:j["pre"]]:
+                if "ok" not in x:
+                    raise ToolError("constructor failed in replay: %s" % x)
+            for n, e in enumerate(b):
+                rr, gg = rs[j["pre"] + 2 * n], rs[j["pre"] + 2 * n + 1]
+                got = res_class(rr)
+                want = e["res"]
+                good = (got == want) or (want == "Err" and got in ("Err", "AlreadyReg"))
+                if "ok" not in gg:
                     good = False
-            if not good:
-                ok = False
-                hist = [[x["op"], x["c"]] for x in b[:n + 1]]
-                # key: the event at which code and specification part ways, classified
-                cls = classify(univ, b, n, got, want)
-                ctx.violation(cls, "history %s: call %d (%s %s) expected %s and registered set %s, real registry returned %s and gather shows %s" % (
-                    hist, n + 1, e["op"], e["c"], want, sorted(e["reg"]), got, sorted(gids) if gids is not None else gg),
-                    {"kind": "history", "universe": univ, "history": b[:n + 1], "calls": j["calls"][:j["pre"] + 2 * n + 2]})
-                break
-        if ok:
-            nconf += 1
+                    gids = None
+                else:
+                    gids = shown_ids(gg)
+                    if gids != expected_ids(univ, e["reg"]):
+                        good = False
+                if not good:
+                    ok = False
+                    hist = [[x["op"], x["c"]] for x in b[:n + 1]]
+                    cls = classify(univ, b, n, got, want)
+                    ctx.violation(cls, "history %s: call %d (%s %s) expected %s and registered set %s, real registry returned %s and gather shows %s" % (
+                        hist, n + 1, e["op"], e["c"], want, sorted(e["reg"]), got, sorted(gids) if gids is not None else gg),
+                        {"kind": "history", "universe": univ, "history": b[:n + 1], "calls": j["calls"][:j["pre"] + 2 * n + 2]})
+                    break
+            if ok:
+                nconf += 1
+        del res, jobs
     # ---- 3. impl -> spec: long random histories incl. unspecified collectors, validated against RegistryTrace
     full = dict(univ, **UNIV_X)
     rnd = random.Random(ctx.seed)
